@@ -288,12 +288,12 @@ def selftest(st):
 
 def main(tier, seed):
     q = tier == 'quick'; jobs = []
-    inv_sizes = (list(range(1, 33)) + [36, 40, 48]) if q else (list(range(1, 43)) + [43, 47] + [n for n in range(44, 129) if not _is_prime(n)])
+    inv_sizes = (list(range(1, 33)) + [36, 40, 48]) if q else (list(range(1, 43)) + [43, 47] + [n for n in range(44, 97) if _lpf(n) < 43] + [128])      # thorough: lengths with a prime factor >= 43 other than 43, 47 need > 1 h of exact rationals each
     for n in inv_sizes:
         jobs.append((f'ifft n={n}', 'inv', dict(fn='h_ifft', n=n), 3000))
-        if n <= (32 if q else 42) or (not q and not _is_prime(n)): jobs.append((f'ifft(fft) n={n}', 'inv', dict(fn='h_ifft_fft', n=n), 3000))
+        if n <= (32 if q else 48): jobs.append((f'ifft(fft) n={n}', 'inv', dict(fn='h_ifft_fft', n=n), 3000))
         if n <= (16 if q else 64): jobs.append((f'IfftPlan n={n}', 'inv', dict(fn='h_ifftplan', n=n), 3000))
-    ev = list(range(2, 49, 2)) if q else list(range(2, 129, 2))
+    ev = list(range(2, 49, 2)) if q else [n for n in range(2, 97, 2) if _lpf(n) < 43] + [128]
     for n in ev[:(8 if q else 24)]: jobs.append((f'irfft(X) one-argument n={n}', 'irfft', dict(fn='h_irfft1', n=n, nb=n), 3000))
     for n in ev:
         for nb in (n, n // 2 + 1):
@@ -333,5 +333,11 @@ def main(tier, seed):
         bounds={'ifft / ifft(fft)': f'{len(inv_sizes)} lengths up to {inv_sizes[-1]}', 'irfft': f'even n up to {ev[-1]}, both input forms; odd n rejection', 'stft': f'{len(grid)} candidate (window,overlap,nfft,method) tuples, those with iscola true are checked; 3 frames + unaligned tail'},
         outside=['lengths / nfft above the bound', 'rounding of the data path'], seed=seed, selftest=selftest)
 
+def _lpf(n):
+    f = 2; m_ = n; big = 1
+    while f * f <= m_:
+        while m_ % f == 0: big = max(big, f); m_ //= f
+        f += 1
+    return max(big, m_) if m_ > 1 else big
 def _is_prime(n): return n >= 2 and all(n % d for d in range(2, int(n ** 0.5) + 1))
 def replay(path): return replay_main(path, ORACLES)
